@@ -315,25 +315,22 @@ def Conn.arm (c : Conn) (now : Time) (p : Packet) (counter : Nat) : Conn :=
     let (s', h) := s.schedule now c.resendTimeout (.resend p counter)
     { c with sched := some s', ackEvents := ackSet (ackKeyOf p) h c.ackEvents }
 
-/-- `send_packet(packet)` -/
-def Conn.sendPacket (env : Env) (now : Time) (c : Conn) (p : Packet) : R :=
-  let p := { p with version := c.version, sourcePort := c.localPort, sourceType := c.localType,
-                    destPort := c.remotePort, destType := c.remoteType }
-  let isAck := hasAck p.flags || hasMultiAck p.flags
-  match (if isAck then Except.ok (p.packetId, c) else c.assign p) with
-  | .error e => R.fail c e
-  | .ok (pid, c) =>
-  let p := { p with packetId := pid }
-  let p := if p.type ≠ TYPE_SYN then { p with sessionId := c.localSessionId } else p
-  match (if p.type = TYPE_DATA ∧ !isAck then c.encodePayload env p else Except.ok (p.payload, c)) with
-  | .error e => R.fail c e
-  | .ok (payload, c) =>
-  let p := { p with payload := payload }
-  let sig :=
-    if p.type = TYPE_SYN then env.packetSig c.codec p [] []
-    else if p.type = TYPE_CONNECT then env.packetSig c.codec p [] (c.remoteSignature.getD [])
-    else env.packetSig c.codec p c.sessionKey (c.remoteSignature.getD [])
-  let p := { p with signature := sig }
+/-- the id step of `send_packet`: acknowledgements keep the id they were given -/
+def Conn.assignIf (c : Conn) (p : Packet) (isAck : Bool) : Except Err (Nat × Conn) :=
+  if isAck then .ok (p.packetId, c) else c.assign p
+
+/-- the payload step of `send_packet`: only DATA packets that are not acknowledgements are encoded -/
+def Conn.encodeIf (env : Env) (c : Conn) (p : Packet) (isAck : Bool) : Except Err (Bytes × Conn) :=
+  if p.type = TYPE_DATA ∧ !isAck then c.encodePayload env p else .ok (p.payload, c)
+
+/-- the signature step of `send_packet` -/
+def Conn.signFor (env : Env) (c : Conn) (p : Packet) : Option Bytes :=
+  if p.type = TYPE_SYN then env.packetSig c.codec p [] []
+  else if p.type = TYPE_CONNECT then env.packetSig c.codec p [] (c.remoteSignature.getD [])
+  else env.packetSig c.codec p c.sessionKey (c.remoteSignature.getD [])
+
+/-- the tail of `send_packet`: hand the packet to the transport, arm the retransmission timer -/
+def Conn.transmit (env : Env) (now : Time) (c : Conn) (p : Packet) : R :=
   if !c.linkUp then
     -- `transport.send` raised a StreamError: cleanup and return
     c.cleanup
@@ -344,6 +341,22 @@ def Conn.sendPacket (env : Env) (now : Time) (c : Conn) (p : Packet) : R :=
     | .ok data =>
       let c := if (hasReliable p.flags || p.type == TYPE_SYN) && hasNeedAck p.flags then c.arm now p 0 else c
       R.ok c [Out.emit c.remoteAddr p data]
+
+/-- `send_packet(packet)` -/
+def Conn.sendPacket (env : Env) (now : Time) (c : Conn) (p : Packet) : R :=
+  let p := { p with version := c.version, sourcePort := c.localPort, sourceType := c.localType,
+                    destPort := c.remotePort, destType := c.remoteType }
+  let isAck := hasAck p.flags || hasMultiAck p.flags
+  match c.assignIf p isAck with
+  | .error e => R.fail c e
+  | .ok (pid, c) =>
+  let p := { p with packetId := pid }
+  let p := if p.type ≠ TYPE_SYN then { p with sessionId := c.localSessionId } else p
+  match c.encodeIf env p isAck with
+  | .error e => R.fail c e
+  | .ok (payload, c) =>
+  let p := { p with payload := payload }
+  c.transmit env now { p with signature := c.signFor env p }
 
 /-- `resend_packet(packet, counter)` (a fired resend timer) -/
 def Conn.resendPacket (env : Env) (now : Time) (c : Conn) (p : Packet) (counter : Nat) : R :=
